@@ -33,6 +33,11 @@ func runC05(w *World, r *Report) {
 	r.Rule("R-C05-3", "printer coverage: every parse/ast node type the parser constructs has a case in package format; every field the parser assigns is read in package format or resolve", 60)
 	r.Rule("R-C05-4", "no in-place truncation (x = x[:0]) of a slice that was stored into a syntax-tree node", 0)
 
+	c05TrailingCommentEndsLine(w, r)
+	c05ParserKeepsOperands(w, r)
+	c05LiteralInHeader(w, r)
+	c05StackedUnary(w, r)
+
 	cp := w.pkg("internal/language/compiler")
 	pp := w.pkg("internal/language/parse")
 	ap := w.pkg("internal/language/parse/ast")
